@@ -66,6 +66,7 @@ def run_shard(ctx):
 
     explore(ctx, cr.strategy(force_fsync=True), run_one, 60 if quick else 1500)
     ctx.stats.extra['pairs'] = ctx.stats.hist.get('pair-exhaustive', 0)
+    ctx.stats.extra['every_event_of_every_pair_used'] = True
     ctx.stats.evaluations -= ctx.stats.extra['pairs'] + ctx.stats.hist.get('pair-skipped', 0)
 
 
